@@ -281,7 +281,7 @@ REQ_EXTRA_ATTRS = {'AuthzDecisionQuery': ' Resource="https://resource.example/x"
 
 def request(now, kind='AuthnRequest', rid='Q1', issuer=SP_X, dest=None, version='2.0', issue_offset=0, sign=None,
             alg='sha256', keyinfo=None, acs_url=None, acs_index=None, protocol_binding=None, body=None, style='Z',
-            extra_attrs='', extensions='', root=None):
+            extra_attrs='', extensions='', root=None, et_prefixes=False):
     at = ' ID="%s" Version="%s" IssueInstant="%s"' % (esca(rid), esca(version), ts(now + issue_offset, style))
     if dest is not None:
         at += ' Destination="%s"' % esca(dest)
@@ -298,6 +298,10 @@ def request(now, kind='AuthnRequest', rid='Q1', issuer=SP_X, dest=None, version=
     b = REQ_BODIES[kind] if body is None else body
     tag = root or kind
     x = ('<samlp:%s xmlns:samlp="%s" xmlns:saml="%s"%s>%s%s%s%s</samlp:%s>' % (tag, SAMLP, SAML, at, iss, sg, ext, b, tag))
+    if et_prefixes:
+        # prefixes as ElementTree would assign them: the message then survives pysaml2's re-serialising SOAP reader
+        from xml.etree import ElementTree as _ET
+        x = _ET.tostring(_ET.fromstring(x), encoding='unicode')
     if sign:
         x = xmlsec.sign_xml(x, rid, world.priv(sign if isinstance(sign, str) else 'spX'))
     return x
